@@ -288,8 +288,6 @@ EXPECTED_REJECTIONS = {
     ('swiftness_fri::formula::fri_formula4', 'EQ'): 'coset length = 4 (holds by construction)',
     ('swiftness_fri::formula::fri_formula8', 'EQ'): 'coset length = 8 (holds by construction)',
     ('swiftness_fri::formula::fri_formula16', 'EQ'): 'coset length = 16 (holds by construction)',
-    ('swiftness_commitment::table::decommit::table_decommit', 'EQ'): 'cells = columns * queries',
-    ('swiftness_commitment::vector::decommit::vector_commitment_decommit', 'EQ'): 'root comparison',
     ('swiftness_fri::last_layer::verify_last_layer', 'EQ'): 'Horner evaluation = folded value',
 }
 CONDITIONAL_ONLY = {('swiftness_fri::layer::compute_coset_elements', 'NONEMPTY')}
@@ -301,6 +299,8 @@ def no_extra_rejections(db, rep):
     for g in gs:
         if getattr(g, 'kind', None) in ('discr', 'bounds') or g.reject == 'panic':
             continue
+        if not g.fn.startswith('swiftness_fri::'):
+            continue    # rejections inside the commitment crate are the business of C04/C05
         seen.setdefault((g.fn, g.rel), []).append(g)
     for key, lst in sorted(seen.items()):
         ok = key in EXPECTED_REJECTIONS
@@ -316,4 +316,4 @@ def no_extra_rejections(db, rep):
                (f'expected rejection: {why}' if ok else
                 f'unexpected rejection condition {key[1]} in {key[0].split("::")[-1]} reachable from fri_verify: honest FRI instances may be rejected'),
                db.fns[g.fn].loc(g.line), db.config)
-    rep.floor('C06.complete', 'rejecting comparisons reachable from fri_verify', len(seen), 8)
+    rep.floor('C06.complete', 'rejecting comparisons of the fri crate reachable from fri_verify', len(seen), 6)
